@@ -9,14 +9,17 @@ import LiquerModel.Handlers.StoreLayers
 import LiquerModel.Handlers.Store
 import LiquerModel.Handlers.Parse
 import LiquerModel.Handlers.Eval
+import LiquerModel.Handlers.EvalMeta
+import LiquerModel.Handlers.Conc
 import LiquerModel.Handlers.Cache
 import LiquerModel.Handlers.StateTypes
 import LiquerModel.Handlers.Web
+import LiquerModel.Handlers.Recipes
 
 open Liquer
 
 def handlers : List (String → List String → Option String) :=
-  [Handlers.store, Handlers.token, Handlers.paths, Handlers.parseH, Handlers.evalH, Handlers.storeLayers, Handlers.cache, Handlers.stateTypes, Handlers.web]
+  [Handlers.store, Handlers.token, Handlers.paths, Handlers.parseH, Handlers.evalH, Handlers.evalMetaH, Handlers.concH, Handlers.storeLayers, Handlers.cache, Handlers.stateTypes, Handlers.web, Handlers.recipes]
 
 def answer (line : String) : String :=
   match (line.trimAscii.toString.splitOn " ").filter (· ≠ "") with
